@@ -438,6 +438,71 @@ class Flow:
                 return None
         return s
 
+    def _field_writes(self, cls, name: str, seen: set | None = None) -> set[str]:
+        """Attributes of `self` that method `name` of class `cls` may assign, through calls on self as well."""
+        seen = seen if seen is not None else set()
+        if name in seen or cls is None:
+            return set()
+        # the method may be inherited: look through base classes defined in the same module
+        owner, hops = cls, 0
+        while owner is not None and name not in owner.methods and hops < 5:
+            nxt = None
+            for b in owner.bases:
+                cand = getattr(owner.module, "classes", {}).get(b.split(".")[-1])
+                if cand is not None:
+                    nxt = cand
+                    break
+            owner, hops = nxt, hops + 1
+        if owner is None or name not in owner.methods:
+            return set()
+        seen.add(name)
+        out: set[str] = set()
+        for n in ast.walk(owner.methods[name].node):
+            if isinstance(n, ast.Attribute) and isinstance(n.ctx, ast.Store) and isinstance(n.value, ast.Name) and n.value.id == "self":
+                out.add(n.attr)
+            if isinstance(n, ast.Call) and isinstance(n.func, ast.Attribute) and isinstance(n.func.value, ast.Name) and n.func.value.id == "self":
+                out |= self._field_writes(cls, n.func.attr, seen)
+        return out
+
+    def _stale_attribute_read(self, d: "Def", at: int) -> bool:
+        """The temporary defined by `d` reads `self.<attr>`, and on some path from `d` to `at` a statement `self.m(...)` runs whose
+        method (transitively) assigns that attribute, or the attribute is assigned directly: the temporary is a stale copy."""
+        cls = getattr(self.fn, "cls", None)
+        if cls is None or d.value is None:
+            return False
+        read = {n.attr for n in ast.walk(d.value) if isinstance(n, ast.Attribute) and isinstance(n.value, ast.Name) and n.value.id == "self"
+                and isinstance(n.ctx, ast.Load)}
+        if not read:
+            return False
+        key = (d.node, at)
+        cache = self.__dict__.setdefault("_stale_cache", {})
+        if key in cache:
+            return cache[key]
+        after = self.cfg.reachable(d.node)
+        res = False
+        for n_ in after:
+            if n_ == d.node:
+                continue
+            if not (n_ == at or at in self.cfg.reachable(n_, avoid={d.node})):
+                continue   # (a path that runs through the definition again refreshes the copy)
+            st = self.cfg.ast[n_] if 0 <= n_ < len(self.cfg.ast) else None
+            if st is None or not isinstance(st, ast.stmt) or isinstance(st, (ast.For, ast.While, ast.If, ast.With, ast.Try)):
+                continue
+            for sub in ast.walk(st):
+                if isinstance(sub, ast.Attribute) and isinstance(sub.ctx, ast.Store) and isinstance(sub.value, ast.Name) and sub.value.id == "self" \
+                        and sub.attr in read:
+                    res = True
+                if isinstance(sub, ast.Call) and isinstance(sub.func, ast.Attribute) and isinstance(sub.func.value, ast.Name) and sub.func.value.id == "self" \
+                        and (self._field_writes(cls, sub.func.attr) & read):
+                    res = True
+            if res and n_ == at:
+                # the use itself performing the write after reading is fine (read happens first) unless it is in a cycle with d
+                res = at in self.cfg.reachable(at)
+            if res:
+                break
+        cache[key] = res
+        return res
+
     def _in_cycle(self, node: int) -> bool:
         if node not in self._in_cycle_cache:
             self._in_cycle_cache[node] = node in self.cfg.reachable(node)
@@ -496,6 +561,8 @@ class Flow:
                     return leave(node)   # loop-carried `x = x + y` is an update of x like `x += y`: the running value keeps its name
                 if any(m.var == node.id and m.kind == "mutate" and isinstance(m.value, ast.Call) for m in flow.defs_at.get(at, ())):
                     return leave(node)   # the object being updated in place by this very statement keeps its name
+                if flow._stale_attribute_read(d, at):
+                    return leave(node)   # `n = self.cur` taken before a call that moves self.cur: the copy is not the attribute any more
                 # a stateful call substituted for its temporary denotes "the latest execution of call site #k", which is
                 # what the single reaching definition holds; a stale copy (`prev = x` before `x` is read again) is
                 # caught by the version label of `x`
